@@ -39,6 +39,24 @@ def main(argv: List[str]) -> int:
         diff_bad += bad
     for b in diff_bad[:5]:
         run.crash(f"encoder disagrees with CPython for {b['handler']} on {str(b['input'])[:160]}: predicted {b['predicted']}, real handler gives {b['native']}")
+    # parse-only probe with an unusual but valid shape: an LSPAny / LSPObject / LSPArray alternative whose payload is nested 600 levels deep
+    # (a handler that copies or walks its input recursively runs out of stack; json.loads accepts such a document)
+    from lib.sweeps import deep_parse_inputs
+    from oracle.pairing import all_class_decls
+
+    deep_n = 0
+    for d in all_class_decls(mm):
+        cls = getattr(live.types, d.pyname, None)
+        if cls is None:
+            continue
+        for j in deep_parse_inputs(mm, d):
+            deep_n += 1
+            try:
+                live.converter.structure(j, cls)
+            except Exception as e:  # noqa
+                which = next((k for k, v in j.items() if isinstance(v, (dict, list)) and len(str(type(v))) and k), "?")
+                run.violation(f"deep:{d.pyname}", f"a valid {d.pyname} whose untyped (LSPAny) payload is nested 600 levels deep is not structured: {type(e).__name__}: {str(e)[:120]}", {"class": d.pyname, "depth": 600, "replay": "lib.sweeps.deep_parse_inputs(mm, <decl>) -> converter.structure(<input>, <class>)"}, True)
+                break
     # thorough: cattrs picks the discriminating attribute of its default disambiguator by iterating a set; re-verify the
     # decision lists produced under other hash seeds (the whole check is re-run in a subprocess per seed)
     seeds_checked = []
